@@ -37,6 +37,12 @@ def cases(ctx, n):
         row = rng.randint(0, lines + 2) if r < 0.8 else rng.choice([0, lines, lines + 1, lines + 2, -1, 10 ** 6])
         mode = ["--suggest", "--hover", "--define"][i % 3]
         out.append((t, [mode, "--row=%d" % row]))
+    # grammar-generated programs: EVERY row from 0 to lines+2, all three modes
+    for t in robust.gen_programs(ctx, max(4, n // 160)):
+        lines = t.count("\n") + 1
+        for row in range(0, lines + 3):
+            for mode in ("--suggest", "--hover", "--define"):
+                out.append((t, [mode, "--row=%d" % row]))
     return out
 
 
@@ -45,7 +51,7 @@ def run(ctx):
     common.build_godrv(ctx)
     proof_ok = common.prove(ctx)
     regress = robust.replay_findings(ctx, ["--suggest", "--row=1"], line_check=line_check)
-    cs = cases(ctx, ctx.pick(2400, 24000))
+    cs = cases(ctx, ctx.pick(1600, 16000))
     failures = sweep_cases(ctx, cs, "query-modes")
     for t, fl in cs[:3]:
         ctx.sample({"flags": fl, "program": t[:160]})
